@@ -161,8 +161,23 @@ func (s *Sim) ev(kind string, node, peer int, data []byte, note string) {
 	s.Log = append(s.Log, Event{Seq: len(s.Log), Kind: kind, Node: node, Peer: peer, Round: s.round, Data: append([]byte{}, data...), Note: note})
 }
 
-func (r *recorder) PrivateSend(dest int, data []byte) { r.s.emit(r.id, dest, false, data) }
-func (r *recorder) Broadcast(data []byte)             { r.s.emit(r.id, -1, true, data) }
+// The network takes its own copy of an outgoing message and then overwrites the sender's buffer (as a
+// transport that encrypts in place or recycles buffers would): an instance must not keep using it.
+func (r *recorder) PrivateSend(dest int, data []byte) {
+	r.s.emit(r.id, dest, false, append([]byte{}, data...))
+	Scribble(data)
+}
+func (r *recorder) Broadcast(data []byte) {
+	r.s.emit(r.id, -1, true, append([]byte{}, data...))
+	Scribble(data)
+}
+
+// Scribble overwrites a buffer the harness no longer needs.
+func Scribble(b []byte) {
+	for i := range b {
+		b[i] = 0xEE
+	}
+}
 func (r *recorder) Disqualify(index int, log string) {
 	r.s.ev("disqualify", r.id, index, nil, log)
 	r.s.Nodes[r.id].Disq[index] = true
@@ -175,7 +190,10 @@ type captureProc struct {
 	vector []byte
 }
 
-func (c *captureProc) PrivateSend(dest int, data []byte) { c.shares[dest] = append([]byte{}, data...) }
+func (c *captureProc) PrivateSend(dest int, data []byte) {
+	c.shares[dest] = append([]byte{}, data...)
+	Scribble(data)
+}
 func (c *captureProc) Broadcast(data []byte) {
 	if c.vector == nil {
 		c.vector = append([]byte{}, data...)
